@@ -28,6 +28,8 @@ UniqueIds(s)     == NoDup([i \in DOMAIN s.records |-> s.records[i].id])
 Sentinels(s)     == s.dividers.l = <<SL>> /\ s.dividers.r = <<SR>>
 SentinelFree(t)  == SL \notin SeqRange(t) /\ SR \notin SeqRange(t)
 QHasWords(E)     == Len(E.qtok.words) > 0
+\* the query as typed contains a letter or digit (Rust's is_alphanumeric, from the recorded character table)
+QHasAlnum(E)     == \E i \in DOMAIN E.q : TVCI(E.q[i]).alnum
 HitPairs(hits)   == [i \in DOMAIN hits |-> <<hits[i].id, hits[i].title>>]
 
 ----------------------------------------------------------------------------
@@ -100,15 +102,15 @@ C09Hit(h, E, S, line) ==
                                 "highlighted span longer than the typed stretch plus one")
                        ELSE NoRes >>)])
        ELSE NoRes,
-       IF p.ok /\ Has(E, "qtok")
-         THEN IF QHasWords(E) THEN Chk(Len(p.spans) >= 1, line, "C09", "hit for a query with a word has no highlight")
-                              ELSE Chk(Len(p.spans) = 0, line, "C09", "hit for an empty query is highlighted")
+       IF p.ok /\ Has(E, "q")
+         THEN IF QHasAlnum(E) THEN Chk(Len(p.spans) >= 1, line, "C09", "hit for a query with a letter or digit has no highlight")
+                              ELSE Chk(Len(p.spans) = 0, line, "C09", "hit for a query without letter or digit is highlighted")
          ELSE NoRes >>)
 
 ----------------------------------------------------------------------------
 \* C05: every hit shares a gram with the query
 C05Hit(h, E, S, line) ==
-  IF ~(Has(E, "qtok") /\ QHasWords(E) /\ HasRecS(S, h.id)) THEN NoRes
+  IF ~(Has(E, "qtok") /\ QHasAlnum(E) /\ HasRecS(S, h.id)) THEN NoRes
   ELSE Chk(GramSet(RecOfS(S, h.id).tok) \cap GramSet(E.qtok) # {}, line, "C05", "hit shares no gram with the query")
 
 ----------------------------------------------------------------------------
